@@ -206,6 +206,9 @@ pub fn fire(wid: u32, wk: &Waker, inside_poll: bool) {
 // ---------------------------------------------------------------------------------------
 
 pub struct Injected;
+/// thrown out of a scripted child when one execution has polled children far more often than any
+/// bounded script allows: the combinator spins inside its own poll
+pub struct HorizonExceeded;
 
 pub enum LeafRes {
     Pending,
@@ -215,10 +218,15 @@ pub enum LeafRes {
 }
 
 pub fn leaf_poll(id: u32, waker: &Waker) -> LeafRes {
-    let d = with(|w| {
+    let runaway = with(|w| {
         w.child_poll_begin(id, waker);
-        w.leaf_decide(id)
+        w.total_child_polls > w.child_poll_cap * 2
     });
+    if runaway {
+        with(|w| w.child_answer(id, Ans::Panicked, 0, false));
+        std::panic::panic_any(HorizonExceeded);
+    }
+    let d = with(|w| w.leaf_decide(id));
     if let Some((wid, wk)) = d.pre_wake {
         fire(wid, &wk, true);
     }
